@@ -39,9 +39,12 @@ TECHNIQUE = "Lean 4 theorems over all trees/environments + regenerated cast-orde
 # keys are opaque strings: underscores, mixed case, dots (a dotted key spells what joining a nested path with '.' gives),
 # the prefix word itself, the empty string
 KEYS = ["a", "b", "a_b", "b_a", "c", "a_b_c", "ab", "A", "B_a", "b_c", "x1", "_a", "a_", "",
-        "a.b", "b.a", "a.b.c", "a.", ".a", "b.c", "invoke"]
+        "a.b", "b.a", "a.b.c", "a.", ".a", "b.c", "invoke",
+        # names of dict / DataProxy / Config methods and attributes, and names that equal / end with / contain a prefix
+        "keys", "items", "get", "update", "prefix", "_config", "reinvoke", "invoke_a", "myapp", "my_app", "x"]
 KEYW = [6, 6, 5, 3, 4, 3, 2, 2, 1, 3, 2, 1, 1, 0.3,
-        2.5, 1.5, 1, 0.5, 0.5, 1.5, 0.7]
+        2.5, 1.5, 1, 0.5, 0.5, 1.5, 0.7,
+        1.5, 0.7, 0.7, 0.5, 0.7, 0.4, 0.7, 0.7, 0.5, 0.5, 0.7]
 LEAVES = [True, False, 0, 7, -3, "s", "", "0", None, [1], ["a", "b"], [], (1,), (), 1.5]
 LEAFW = [4, 4, 2, 3, 2, 4, 2, 1, 4, 0.5, 0.5, 0.3, 0.5, 0.3, 1]
 NUMERIC = ["1", "0", "42", "-3", " 7 ", "+5", "1_000", "00", "\t8\n", "-0"]
